@@ -22,6 +22,7 @@ import (
 	"path/filepath"
 	"reflect"
 	"sort"
+	"strings"
 	"sync"
 	"time"
 
@@ -1002,9 +1003,9 @@ func run(c *core.Ctx) error {
 	c.Assume("facets are compared only when the facet size covers all buckets, as the property states")
 	c.Assume("search-after / search-before requests use From = 0 (SearchRequest.Validate demands it)")
 
-	only := os.Getenv("VERIF_C09_ONLY") // development knob: A | B | M
+	only := os.Getenv("VERIF_C09_ONLY") // development knob: any of the letters A B M
 	var wg sync.WaitGroup
-	if only == "" || only == "M" {
+	if only == "" || strings.Contains(only, "M") {
 		type mc struct {
 			cfg     string
 			workers int
@@ -1033,11 +1034,11 @@ func run(c *core.Ctx) error {
 		}()
 	}
 	var errA, errB error
-	if only == "" || only == "A" {
+	if only == "" || strings.Contains(only, "A") {
 		wg.Add(1)
 		go func() { defer wg.Done(); errA = engineA(c) }()
 	}
-	if only == "" || only == "B" {
+	if only == "" || strings.Contains(only, "B") {
 		wg.Add(1)
 		go func() { defer wg.Done(); errB = engineB(c) }()
 	}
